@@ -314,4 +314,196 @@ theorem txLoop_spec {κ : Type} [DecidableEq α] [DecidableEq κ] :
               simpa [List.flatMap_cons, List.append_assoc] using this
         · simp [h2] at h
 
+/-! ### `CheckDuplicateTx` -/
+
+def SpTx.wellTyped : SpTx → Bool
+  | .withdraw ok _ | .regProducer ok _ _ | .updProducer ok _ _ | .cancelProducer ok _
+  | .regCR ok _ | .updCR ok _ | .unregCR ok _ => ok
+  | _ => true
+
+def sidesOf : List SpTx → List String
+  | [] => []
+  | .withdraw _ hs :: r => hs ++ sidesOf r
+  | _ :: r => sidesOf r
+
+def ownersOf : List SpTx → List String
+  | [] => []
+  | .regProducer _ o _ :: r | .updProducer _ o _ :: r | .cancelProducer _ o :: r => o :: ownersOf r
+  | _ :: r => ownersOf r
+
+def nodesOf : List SpTx → List String
+  | [] => []
+  | .regProducer _ _ n :: r | .updProducer _ _ n :: r => n :: nodesOf r
+  | _ :: r => nodesOf r
+
+def cidsOf : List SpTx → List String
+  | [] => []
+  | .regCR _ c :: r | .updCR _ c :: r | .unregCR _ c :: r => c :: cidsOf r
+  | _ :: r => cidsOf r
+
+def sponsorCount : List SpTx → Nat
+  | [] => 0
+  | .sponsor :: r => 1 + sponsorCount r
+  | _ :: r => sponsorCount r
+
+theorem checkDuplicateTx_spec : ∀ (txs : List SpTx) (st : DupSt), checkDuplicateTx txs st = none →
+    (∀ t ∈ txs, t.wellTyped = true) ∧ (st.sponsors ≤ 1 → st.sponsors + sponsorCount txs ≤ 1) ∧
+    (st.sides.Nodup → ((sidesOf txs).reverse ++ st.sides).Nodup) ∧
+    (st.owners.Nodup → ((ownersOf txs).reverse ++ st.owners).Nodup) ∧
+    (st.nodes.Nodup → ((nodesOf txs).reverse ++ st.nodes).Nodup) ∧
+    (st.crs.Nodup → ((cidsOf txs).reverse ++ st.crs).Nodup)
+  | [], st, _ => by simp [sidesOf, ownersOf, nodesOf, cidsOf, sponsorCount]
+  | t :: rest, st, h => by
+      cases t with
+      | sponsor =>
+        simp only [checkDuplicateTx] at h
+        by_cases hs : st.sponsors + 1 > 1
+        · simp [hs] at h
+        · simp only [hs, if_false] at h
+          obtain ⟨a, b, c, d, e, f⟩ := checkDuplicateTx_spec rest _ h
+          refine ⟨?_, ?_, c, d, e, f⟩
+          · intro t ht; rcases List.mem_cons.mp ht with h1 | h1
+            · rw [h1]; rfl
+            · exact a t h1
+          · intro hle; have := b (by simp only; omega); simp only [sponsorCount] at this ⊢; omega
+      | other =>
+        simp only [checkDuplicateTx] at h
+        obtain ⟨a, b, c, d, e, f⟩ := checkDuplicateTx_spec rest _ h
+        refine ⟨?_, b, c, d, e, f⟩
+        intro t ht; rcases List.mem_cons.mp ht with h1 | h1
+        · rw [h1]; rfl
+        · exact a t h1
+      | withdraw ok hashes =>
+        simp only [checkDuplicateTx] at h
+        cases ok with
+        | false => simp at h
+        | true =>
+          simp only [Bool.not_true, Bool.false_eq_true, if_false] at h
+          cases hl : inputLoop hashes st.sides with
+          | none => simp [hl] at h
+          | some sides =>
+            simp only [hl] at h
+            obtain ⟨a, b, c, d, e, f⟩ := checkDuplicateTx_spec rest _ h
+            obtain ⟨e1, nd1⟩ := inputLoop_spec _ _ _ hl
+            refine ⟨?_, b, ?_, d, e, f⟩
+            · intro t ht; rcases List.mem_cons.mp ht with h1 | h1
+              · rw [h1]; rfl
+              · exact a t h1
+            · intro hs
+              have := c (nd1 hs)
+              simp only [e1] at this
+              simpa [sidesOf, List.reverse_append, List.append_assoc] using this
+      | regProducer ok owner node =>
+        simp only [checkDuplicateTx] at h
+        cases ok with
+        | false => simp at h
+        | true =>
+          simp only [Bool.not_true, Bool.false_eq_true, if_false] at h
+          by_cases h1 : owner ∈ st.owners
+          · simp [h1] at h
+          · by_cases h2 : node ∈ st.nodes
+            · simp [h1, h2] at h
+            · simp only [h1, h2, if_false] at h
+              obtain ⟨a, b, c, d, e, f⟩ := checkDuplicateTx_spec rest _ h
+              refine ⟨?_, b, c, ?_, ?_, f⟩
+              · intro t ht; rcases List.mem_cons.mp ht with h3 | h3
+                · rw [h3]; rfl
+                · exact a t h3
+              · intro hs
+                have := d (List.nodup_cons.mpr ⟨h1, hs⟩)
+                simpa [ownersOf, List.reverse_cons, List.append_assoc] using this
+              · intro hs
+                have := e (List.nodup_cons.mpr ⟨h2, hs⟩)
+                simpa [nodesOf, List.reverse_cons, List.append_assoc] using this
+      | updProducer ok owner node =>
+        simp only [checkDuplicateTx] at h
+        cases ok with
+        | false => simp at h
+        | true =>
+          simp only [Bool.not_true, Bool.false_eq_true, if_false] at h
+          by_cases h1 : owner ∈ st.owners
+          · simp [h1] at h
+          · by_cases h2 : node ∈ st.nodes
+            · simp [h1, h2] at h
+            · simp only [h1, h2, if_false] at h
+              obtain ⟨a, b, c, d, e, f⟩ := checkDuplicateTx_spec rest _ h
+              refine ⟨?_, b, c, ?_, ?_, f⟩
+              · intro t ht; rcases List.mem_cons.mp ht with h3 | h3
+                · rw [h3]; rfl
+                · exact a t h3
+              · intro hs
+                have := d (List.nodup_cons.mpr ⟨h1, hs⟩)
+                simpa [ownersOf, List.reverse_cons, List.append_assoc] using this
+              · intro hs
+                have := e (List.nodup_cons.mpr ⟨h2, hs⟩)
+                simpa [nodesOf, List.reverse_cons, List.append_assoc] using this
+      | cancelProducer ok owner =>
+        simp only [checkDuplicateTx] at h
+        cases ok with
+        | false => simp at h
+        | true =>
+          simp only [Bool.not_true, Bool.false_eq_true, if_false] at h
+          by_cases h1 : owner ∈ st.owners
+          · simp [h1] at h
+          · simp only [h1, if_false] at h
+            obtain ⟨a, b, c, d, e, f⟩ := checkDuplicateTx_spec rest _ h
+            refine ⟨?_, b, c, ?_, e, f⟩
+            · intro t ht; rcases List.mem_cons.mp ht with h3 | h3
+              · rw [h3]; rfl
+              · exact a t h3
+            · intro hs
+              have := d (List.nodup_cons.mpr ⟨h1, hs⟩)
+              simpa [ownersOf, List.reverse_cons, List.append_assoc] using this
+      | regCR ok cid =>
+        simp only [checkDuplicateTx] at h
+        cases ok with
+        | false => simp at h
+        | true =>
+          simp only [Bool.not_true, Bool.false_eq_true, if_false] at h
+          by_cases h1 : cid ∈ st.crs
+          · simp [h1] at h
+          · simp only [h1, if_false] at h
+            obtain ⟨a, b, c, d, e, f⟩ := checkDuplicateTx_spec rest _ h
+            refine ⟨?_, b, c, d, e, ?_⟩
+            · intro t ht; rcases List.mem_cons.mp ht with h3 | h3
+              · rw [h3]; rfl
+              · exact a t h3
+            · intro hs
+              have := f (List.nodup_cons.mpr ⟨h1, hs⟩)
+              simpa [cidsOf, List.reverse_cons, List.append_assoc] using this
+      | updCR ok cid =>
+        simp only [checkDuplicateTx] at h
+        cases ok with
+        | false => simp at h
+        | true =>
+          simp only [Bool.not_true, Bool.false_eq_true, if_false] at h
+          by_cases h1 : cid ∈ st.crs
+          · simp [h1] at h
+          · simp only [h1, if_false] at h
+            obtain ⟨a, b, c, d, e, f⟩ := checkDuplicateTx_spec rest _ h
+            refine ⟨?_, b, c, d, e, ?_⟩
+            · intro t ht; rcases List.mem_cons.mp ht with h3 | h3
+              · rw [h3]; rfl
+              · exact a t h3
+            · intro hs
+              have := f (List.nodup_cons.mpr ⟨h1, hs⟩)
+              simpa [cidsOf, List.reverse_cons, List.append_assoc] using this
+      | unregCR ok cid =>
+        simp only [checkDuplicateTx] at h
+        cases ok with
+        | false => simp at h
+        | true =>
+          simp only [Bool.not_true, Bool.false_eq_true, if_false] at h
+          by_cases h1 : cid ∈ st.crs
+          · simp [h1] at h
+          · simp only [h1, if_false] at h
+            obtain ⟨a, b, c, d, e, f⟩ := checkDuplicateTx_spec rest _ h
+            refine ⟨?_, b, c, d, e, ?_⟩
+            · intro t ht; rcases List.mem_cons.mp ht with h3 | h3
+              · rw [h3]; rfl
+              · exact a t h3
+            · intro hs
+              have := f (List.nodup_cons.mpr ⟨h1, hs⟩)
+              simpa [cidsOf, List.reverse_cons, List.append_assoc] using this
+
 end ElaVerif.Merkle
